@@ -6,10 +6,13 @@ namespace Soa.IdxIR
 
 /-- a generated accessor `m` of container kind `k` applied to the index value `iv`, on a
     lockstep container of length `n` and shape `sh`, under build profile `p` -/
-def run (p : Prof) (n : Nat) (sh : Shape) (k : Kind) (iv : IV) (m : M) : R :=
+def runLT (p : Prof) (t : LT) (k : Kind) (iv : IV) (m : M) : R :=
   match Soa.Extracted.table k iv.form m with
-  | some b => eval Soa.Extracted.table p n sh 8 k iv b
+  | some b => eval Soa.Extracted.table p t 8 k iv b
   | none => .err .stuck
+
+/-- on a lockstep container of length `n` and shape `sh` -/
+def run (p : Prof) (n : Nat) (sh : Shape) (k : Kind) (iv : IV) (m : M) : R := runLT p (LT.uniform n sh) k iv m
 
 /-- std: the window `slice.get(index)` selects on a slice of length `n` (`none` = `None`);
     `slice[index]` panics exactly when this is `none`.
@@ -49,21 +52,66 @@ def Shape.wf : Shape → Prop
 
 @[simp] theorem wf_nest : (Shape.nest fs).wf ↔ fs ≠ [] ∧ ∀ f ∈ fs, f.wf := by simp [Shape.wf]
 
-/-- on a lockstep container every field yields the same window, whatever the shape -/
-theorem buildShape_lock (n : Nat) (iv : IV) (c : Bool) : ∀ sh : Shape, sh.wf → buildShape n iv c sh = leafAcc n iv c
-  | .leaf, _ => by simp [buildShape]
+theorem leaves_uniform (n : Nat) : ∀ sh : Shape, sh.wf → (LT.uniform n sh).leaves ≠ [] ∧ ∀ x ∈ (LT.uniform n sh).leaves, x = n
+  | .leaf, _ => by simp [LT.uniform, LT.leaves]
   | .nest fs, h => by
     rw [wf_nest] at h
-    simp only [buildShape]
+    simp only [LT.uniform, LT.leaves]
     exact go fs h.1 h.2
-where go : ∀ fs : List Shape, fs ≠ [] → (∀ f ∈ fs, f.wf) → buildShape.go n iv c fs = leafAcc n iv c
+where go : ∀ fs : List Shape, fs ≠ [] → (∀ f ∈ fs, f.wf) →
+    LT.leaves.leavesL (LT.uniform.uniformL n fs) ≠ [] ∧ ∀ x ∈ LT.leaves.leavesL (LT.uniform.uniformL n fs), x = n
   | [], h, _ => absurd rfl h
-  | [f], _, h => by simp only [buildShape.go]; exact buildShape_lock n iv c f (h f (by simp))
+  | [f], _, h => by
+    have := leaves_uniform n f (h f (by simp))
+    simp only [LT.uniform.uniformL, LT.leaves.leavesL, List.append_nil]
+    exact this
   | f :: g :: fs, _, h => by
-    have h1 := buildShape_lock n iv c f (h f (by simp))
+    have h1 := leaves_uniform n f (h f (by simp))
     have h2 := go (g :: fs) (by simp) (fun x hx => h x (by simp at hx ⊢; right; exact hx))
-    simp only [buildShape.go, h1, h2]
-    cases leafAcc n iv c <;> simp
+    simp only [LT.uniform.uniformL, LT.leaves.leavesL] at h2 ⊢
+    refine ⟨by intro he; exact h1.1 (List.append_eq_nil_iff.mp he).1, ?_⟩
+    intro x hx
+    rcases List.mem_append.mp hx with hx | hx
+    · exact h1.2 x hx
+    · exact h2.2 x hx
+
+@[simp] theorem first_uniform (n : Nat) (sh : Shape) (hw : sh.wf) : (LT.uniform n sh).first = n := by
+  have h := leaves_uniform n sh hw
+  unfold LT.first
+  cases hl : (LT.uniform n sh).leaves with
+  | nil => exact absurd hl h.1
+  | cons x xs => simp only [List.headD_cons]; exact h.2 x (by simp [hl])
+
+/-- on a lockstep container the debug assertion of `len()` passes: both profiles return `n` -/
+@[simp] theorem lenChecked_uniform (p : Prof) (n : Nat) (sh : Shape) (hw : sh.wf) :
+    (LT.uniform n sh).lenChecked p = some n := by
+  have h := leaves_uniform n sh hw
+  have hf := first_uniform n sh hw
+  cases p
+  · simp only [LT.lenChecked, hf]
+    have : (LT.uniform n sh).leaves.all (· == n) = true := by
+      rw [List.all_eq_true]; intro x hx; simp [h.2 x hx]
+    simp [this]
+  · simp [LT.lenChecked, hf]
+
+/-- on a lockstep container every field yields the same window, whatever the shape -/
+theorem buildLT_uniform (n : Nat) (iv : IV) (m : Mode) : ∀ sh : Shape, sh.wf → buildLT iv m (LT.uniform n sh) = leafAcc n iv m
+  | .leaf, _ => by simp [buildLT, LT.uniform]
+  | .nest fs, h => by
+    rw [wf_nest] at h
+    simp only [buildLT, LT.uniform]
+    exact go fs h.1 h.2
+where go : ∀ fs : List Shape, fs ≠ [] → (∀ f ∈ fs, f.wf) → buildLT.go iv m (LT.uniform.uniformL n fs) = leafAcc n iv m
+  | [], h, _ => absurd rfl h
+  | [f], _, h => by simp only [LT.uniform.uniformL, buildLT.go]; exact buildLT_uniform n iv m f (h f (by simp))
+  | f :: g :: fs, _, h => by
+    have h1 := buildLT_uniform n iv m f (h f (by simp))
+    have h2 := go (g :: fs) (by simp) (fun x hx => h x (by simp at hx ⊢; right; exact hx))
+    simp only [LT.uniform.uniformL] at h2 ⊢
+    simp only [buildLT.go, h1, h2]
+    cases hl : leafAcc n iv m with
+    | err e => rfl
+    | ok v => cases v <;> simp
 
 theorem addU_small (p : Prof) (x : Nat) (h : x < MAX) : addU p x 1 = some (x + 1) := by
   have : x + 1 ≤ MAX := by omega
